@@ -593,7 +593,7 @@ impl Monitor for C19 {
          copies, callback log compared as a multiset with the operators' reference inputs) equals direct evaluation of the program on random u64 inputs. Oracle for forget / \
          forget_monogamous: returns; well-formed; same type; isomorphic to model substitution replacing exactly the label-uniform (resp. uniform 1->1) var hyperedges by one \
          merged node; for var-built terms evaluates to the same function. non-trivial = program with a shared variable or a term with a non-uniform var hyperedge; distinct = hash \
-         of program / term."
+         of program / term. Also: every operator hyperedge must sit on nodes of its operand and result types (the result-type function of the test signature is not symmetric), pending unifications of a built term are applied before it is evaluated, and the Forget functor value is driven through the native lax path."
     }
     fn corpus_len(&self) -> u64 {
         corpus_terms().len() as u64
